@@ -101,7 +101,7 @@ def run(ctx) -> None:
     res.rule = (
         "cases are run configurations over a 6-file probe set: permutations of the file arguments (quick 24 sampled + identity, thorough all 720) x "
         "{sort by filename, by error}; partitions into 2-3 groups; cold/warm/corrupted cache; 3 concurrent runs; in-process histories (10 repetitions, "
-        "edit between runs, interleaved file sets). Non-trivial = the configuration differs from the reference run (identity order, one group, cold "
+        "edit between runs, interleaved file sets); clone corpus: byte-identical copies of refurb's idiom files in one run, three orders. Non-trivial = the configuration differs from the reference run (identity order, one group, cold "
         "cache, fresh process); distinct = distinct configuration"
     )
     how = "write harness/props/c11.py:FILES into an empty directory with an empty pyproject.toml; run python -m refurb ARGV --enable-all --quiet"
@@ -246,6 +246,54 @@ def run(ctx) -> None:
         res.case(("in-process-interleave", "XYX"))
         if outs[0] != outs[2]:
             res.violate("checking X, then Y, then X again in one process gives two different reports for X", {"kind": "same-process-interleave"}, {"first": outs[0][:400], "third": outs[2][:400]})
+        # ---- clones: a byte-identical copy of a file, checked in the same run, must get the same report
+        # (whatever state a check keeps between files — id-sets, position sets, caches — must not leak)
+        d3 = root / "clones"
+        d3.mkdir()
+        (d3 / "pyproject.toml").write_text("")
+        data = sorted((core.REPO / "test" / "data").glob("err_*.py"))
+        picked = data if not ctx.quick else rng.sample(data, min(36, len(data)))
+        if core.REPO.joinpath("test/data/err_140.py") not in picked:
+            picked = [*picked, core.REPO / "test" / "data" / "err_140.py"]
+        originals, clones = [], []
+        for f in picked:
+            (d3 / f"o_{f.name}").write_bytes(f.read_bytes())
+            (d3 / f"c_{f.name}").write_bytes(f.read_bytes())
+            originals.append(f"o_{f.name}")
+            clones.append(f"c_{f.name}")
+
+        def per_file(out: str) -> dict[str, list[tuple]]:
+            diags, _ = core.parse_plain(out)
+            m: dict[str, list[tuple]] = {}
+            for x in diags:
+                m.setdefault(x["file"][2:], []).append((x["file"][:2], x["line"], x["col"], x["prefix"], x["code"], x["msg"].replace(x["file"], "")))
+            return m
+
+        orders = [("originals-then-clones", originals + clones), ("interleaved", [n for pair in zip(originals, clones) for n in pair]), ("clones-reversed-first", clones[::-1] + originals)]
+        with ThreadPoolExecutor(4) as ex:
+            outs = list(ex.map(lambda o: cli(d3, o[1]), orders))
+        solo = cli(d3, originals)
+        solo_map = {k: [t[1:] for t in v] for k, v in per_file(solo[1]).items()}
+        for (oname, order), (rc, out, err) in zip(orders, outs):
+            res.case(("clones", oname, len(order)))
+            res.bump("clone_files", len(order))
+            if err.strip():
+                res.violate("stderr output on the clone corpus", {"kind": "stderr", "where": "clones"}, {"stderr": err[-400:]})
+                continue
+            m = per_file(out)
+            for name in sorted(set(m) | set(solo_map)):
+                o = [t[1:] for t in m.get(name, []) if t[0] == "o_"]
+                c = [t[1:] for t in m.get(name, []) if t[0] == "c_"]
+                want = solo_map.get(name, [])
+                if o != want or c != want:
+                    who = "clone" if c != want else "original"
+                    diff = [t for t in want if t not in (c if who == "clone" else o)][:3] + [t for t in (c if who == "clone" else o) if t not in want][:3]
+                    res.violate(
+                        f"a byte-identical copy of test/data/{name} checked in the same run ({oname}) gets a different report than the file alone ({who} differs)",
+                        {"kind": "clone-differs", "codes": sorted({f'{t[2]}{t[3]}' for t in diff})[:3]},
+                        {"how": f"copy test/data/{name} to o_{name} and c_{name} (and the other picked files likewise) into an empty directory; run python -m refurb FILES --enable-all --quiet in the order '{oname}'", "files_in_run": len(order), "file": name, "differing_diagnostics": diff, "alone": want[:6]},
+                    )
+                    break
     res.sample({"files": names, "reference_report_head": ref["filename"][1][:300]})
     res.assumptions += [
         "mypy's cache handling (incremental flags set in main.py:161-163) and concurrent processes are exercised, not modelled: C11 is partial there",
